@@ -262,7 +262,7 @@ def check(prop_id, tier):
         json.dump(ev, fh, indent=1, default=str)
     if harness_bad:
         for hb in harness_bad[:5]:
-            out('HARNESS-ERROR', str(hb)[:1500])
+            out('HARNESS-ERROR', str(hb)[-700:])
         if not nviol:
             return 2
     if nviol:
@@ -290,6 +290,9 @@ def main(argv=None):
                     pool._put(w)
             out('setup ok', snap)
             return 0
+        if cmd == 'dev':
+            from . import dev
+            return dev.main(argv[1:])
         if cmd == 'manifest':
             from . import manifest
             m = manifest.write()
